@@ -53,3 +53,8 @@ claim("C15",
       "For generated and hand-built trees and, for every operator, a tracing map / single-operator override / removed / failing function: the call log must be exactly the bottom-up fold of the tree with the supplied functions (one call per node, right operator, children before parents, arguments are the children's results in at most one pair of parentheses, containers in order, root result returned); an override changes output only at that operator's nodes; a missing function yields an error and empty output iff the operator occurs; the stock renderers fail on every query containing ~ or ^.",
       "The fold checker is harness code (trusted). Values containing the tracer's marker runes are skipped.",
       "DESIGN.md section 4, C15")
+claim("C14",
+      "seeded stress over a (goroutines x GOMAXPROCS) grid under the race detector; differential against a sequential run + snapshots",
+      "A seed-determined corpus is parsed once into shared expressions; goroutines behind a barrier run seed-determined operation sequences over shared and private inputs (also a shared custom driver). Every concurrent result must equal the sequential result, three sequential runs must agree, shared trees must be deep-equal to copies taken before use, and the -race build must report nothing. The number of truly overlapping operation pairs on shared inputs is measured and reported.",
+      "The harness does not own the Go scheduler: interleavings are sampled; a race needs both conflicting accesses to execute (in any order) to be flagged. A schedule-dependent failure may not reproduce from the replay file, which therefore carries the history / race report.",
+      "DESIGN.md section 4, C14")
